@@ -130,7 +130,8 @@ def gen_layout_program(rng, big=False):
     """labels, relative/absolute references, DATA words and filler whose lengths put reference distances at the
     encoding-length boundaries, in both directions, with chains and alignment absorption"""
     nl = rng.randint(1, 5)
-    labels = ['L%d' % i for i in range(nl)]
+    stem = rng.choice(['L', 'L', 'L', 'lab_', 'a_rather_long_label_name_', 'x' * rng.randint(1, 28), 'Procedure_With_A_Long_Name'])
+    labels = ['%s%d' % (stem, i) for i in range(nl)]
     kinds = {l: rng.choice(['id', 'id', 'id', 'func', 'proc']) for l in labels}
     items = []
     bounds = BOUNDS + (BIGBOUNDS if big else [])
@@ -328,13 +329,17 @@ def parse_listing(lines):
         if t[0] == 'PADDING':
             out.append('P %d' % size)
         elif t[0] == 'DATA':
+            if len(t) != 2 or not re.match(r'^-?\d+$', t[1]):
+                return None
             out.append('D %d %s %d' % (off, t[1], size))
         elif t[0] in ('FUNC', 'PROC'):
             out.append('B %d %d' % (off, size))
         elif t[0] == 'OPR':
+            if len(t) != 2 or t[1] not in OPRS:
+                return None
             out.append('O %d %s %d' % (off, t[1], size))
         elif t[0] in IMM:
-            if len(t) == 3 and t[2].startswith('('):
+            if len(t) == 3 and re.match(r'^\(-?\d+\)$', t[2]):
                 out.append('I %d %s %s %d' % (off, t[0], t[2].strip('()'), size))
             elif len(t) == 2 and re.match(r'^-?\d+$', t[1]):
                 out.append('I %d %s %s %d' % (off, t[0], t[1], size))
